@@ -98,6 +98,9 @@ Definition fifo_set (lim : nat) (f : fifo) (k : N) (v : bytes) : res fifo :=
     end
   else Ok (f ++ [(k, v)]).
 
+(* clear(): nothing is left - neither items nor any memory of their order *)
+Definition fifo_clear (f : fifo) : fifo := [].
+
 (* ------------------------------------------------------------------ packets.py *)
 Definition be16 (n : N) : bytes := [n / 256; n mod 256].
 Definition be32 (n : N) : bytes :=
@@ -301,13 +304,14 @@ Definition ctx_reset (s : st) (seq_new now : N) : st :=
      s_backlog := s_backlog s; s_out := s_out s |}.
 
 (* A further stream on the same StreamContext, whatever state [prev] an earlier stream left it in:
-   stream_file creates a new StreamClient (empty backlog) and audio transport around the
+   stream_file creates a new StreamClient (empty backlog) - or the same StreamClient is used
+   again, whose backlog send_audio() cleared in its finally - and a new audio transport around the
    connection's context, opens the new source, and send_audio() resets the context. *)
 Definition next_stream (c : cfg) (prev : st) (seq_new : N) (script : list (res bytes)) (sched : list lap)
   : st * outcome :=
   laps c sched 0
     (ctx_reset {| s_seq := s_seq prev; s_head := s_head prev; s_pad := s_pad prev; s_src := script;
-                  s_reads := O; s_backlog := []; s_out := [] |} seq_new (c_start c)).
+                  s_reads := O; s_backlog := fifo_clear (s_backlog prev); s_out := [] |} seq_new (c_start c)).
 
 (* ------------------------------------------------------------------ control client *)
 
@@ -449,7 +453,9 @@ Definition check_case (k : ocase) : bool :=
 (* direct cases for the small functions *)
 Inductive small :=
 | SmSwap (data : bytes) (r : res bytes)                      (* _to_audio_samples *)
-| SmFifo (lim : N) (ops : list N) (keys : list N) (raised : option exn).   (* PacketFifo: insert keys, value = [key] *)
+| SmFifo (lim : N) (ops : list N) (keys : list N) (raised : option exn)    (* PacketFifo: insert keys, value = [key] *)
+| SmFifoClear (lim : N) (ops1 ops2 : list N) (keys : list N) (raised : option exn).
+                                      (* insert ops1, clear() (send_audio's finally), insert ops2 *)
 
 Definition res_bytes_eqb (a b : res bytes) : bool :=
   match a, b with
@@ -472,6 +478,11 @@ Definition check_small (x : small) : bool :=
   | SmSwap d r => res_bytes_eqb (to_audio_samples d) r
   | SmFifo lim ops keys raised =>
       let '(f, e) := fifo_run (N.to_nat lim) [] ops in
+      list_beq N.eqb (map fst f) keys && opt_beq exn_eqb e raised
+      && forallb (fun kv => bytes_beq (snd kv) [fst kv]) f
+  | SmFifoClear lim ops1 ops2 keys raised =>
+      let '(f1, _) := fifo_run (N.to_nat lim) [] ops1 in
+      let '(f, e) := fifo_run (N.to_nat lim) (fifo_clear f1) ops2 in
       list_beq N.eqb (map fst f) keys && opt_beq exn_eqb e raised
       && forallb (fun kv => bytes_beq (snd kv) [fst kv]) f
   end.
